@@ -3,8 +3,10 @@
   `C12_jsonschema_source_validates_emitted_partial` (Props/C12.lean, block of the c01-front builder) on the REAL front-end IR of
   the `c01-front` stream, and the MEASURED comparison of the two validators on every document.
 
-    jsfc12 <id> <real-id> <doc>  →  inst=<b> concl=<b|n/a> satgap=<b> jsfrag=<b> frag=<b> modelled=<b> src=<b> emjs=<b|n/a> satjs=<b|n/a>
+    jsfc12 <id> <real-id> <doc>  →  base=<b> satlax=<b> inst=<b> concl=<b|n/a> satgap=<b> jsfrag=<b> frag=<b> modelled=<b> src=<b> emjs=<b|n/a> satjs=<b|n/a>
                                     samedefs=<b> nonull=<b> cmp=<both|none|src-only|emit-only|n/a> cmpgo=<…>
+        base    : FragJS ∧ PlainS of the real IR ∧ wfDeep ∧ jsValidX of the SOURCE schema
+        satlax  : `satLax` (below) of the pass models' output Sg — expected for every `base` document
         inst    : every hypothesis of the theorem holds (FragJS, PlainS, wfDeep, jsValidX of the SOURCE schema, jsFrag of the pass
                   models' output Sg of the real IR, emitDefs Sg, localHas root, sat)
         concl   : goRoundTrip on Sg answers j' ≡ doc and j' validates against `#/definitions/<root>` of `emitDefs Sg`
@@ -43,6 +45,56 @@ partial def noNullMember : Json → Bool
   | .arr xs => xs.all noNullMember
   | _ => true
 
+/-- `JSOut.sat` without the two exclusions that the known findings C12/nullable/… and C12/any/… explain: `null` is
+    excused everywhere and an `any` holds every value.  What remains (constraints, constants, enumeration members, required
+    members, shapes) must hold for every document that is valid against the SOURCE schema: measured by the check
+    (a front-end that alters a constraint makes source-valid documents fail it). -/
+def satLax : Nat → Schemas → Ty → Json → Bool
+  | 0, _, _, _ => false
+  | n + 1, ss, t, j =>
+    j.isNull ||
+    match t with
+    | .scalar kind v cs _ => kind == "any" || JSOut.satScalar kind v cs j
+    | .array e _ =>
+      (match j with
+       | .arr xs => xs.all (satLax n ss e)
+       | _ => false)
+    | .map _ v _ =>
+      (match j with
+       | .obj kvs => kvs.all (fun kv => satLax n ss v kv.2)
+       | _ => false)
+    | .ref pkg name _ =>
+      (match Schemas.locateObject ss pkg name with
+       | none => false
+       | some o =>
+         match o.ty with
+         | .struct fields _ none _ =>
+           (match j with
+            | .obj members => fields.all fun f =>
+                (match Json.lookup f.name members with
+                 | some x => satLax n ss f.ty x
+                 | none => !f.required)
+            | _ => false)
+         | .struct fields _ (some (hint, info)) _ =>
+           if hint = "disjunction_of_scalars" then
+             fields.all (fun f => !den n ss (JSOut.noNull f.ty) j || satLax n ss (JSOut.noNull f.ty) j)
+           else
+             (match j with
+              | .obj members =>
+                (match Json.lookup info.discriminator members with
+                 | some (.str tag) =>
+                   (match info.mapping.find? (fun kv => kv.1 == tag) with
+                    | some kv => satLax n ss (.ref pkg kv.2 {}) j
+                    | none => false)
+                 | _ => false)
+              | _ => false)
+         | .enum vs _ => JSOut.enumMember vs j
+         | .scalar kind v cs _ => kind == "any" || JSOut.satScalar kind v cs j
+         | .array .. | .map .. => satLax n ss o.ty j
+         | .ref p n' om => satLax n ss (.ref p n' om) j
+         | _ => false)
+    | _ => false
+
 def cmpText (src : Bool) : Option Bool → String
   | none => "n/a"
   | some e => if src && e then "both" else if src then "src-only" else if e then "emit-only" else "none"
@@ -78,6 +130,9 @@ def jsfc12Line (rest : String) : IO String := do
                    | .ok j' => Json.eqv j' j && JSOut.jsValidObj D (n + 3 + 1) root j'
                    | _ => false)
                 (jsf, others, satv, concl)
+        let satlax := match prep.model with
+          | some Sg => satLax (n + 3) Sg (.ref c.pkg root {}) j
+          | none => false
         let inst := base && others && satv
         let satgap := base && others && !satv
         let src := jsValid fmtOracle c.defs frontFuel c.root j
@@ -98,7 +153,7 @@ def jsfc12Line (rest : String) : IO String := do
         let samedefs := match sjs.bind defsOf, prep.model.bind defsOf with
           | some a, some b => JSOut.jsBeqKvs a b
           | _, _ => false
-        return s!"inst={inst} concl={if inst then toString concl else "n/a"} satgap={satgap} jsfrag={jsf} frag={c.frag} modelled={c.modelled} src={src} emjs={emjs} satjs={satjs} samedefs={samedefs} nonull={noNullMember j} cmp={cmp} cmpgo={cmpgo}"
+        return s!"base={base} satlax={satlax} inst={inst} concl={if inst then toString concl else "n/a"} satgap={satgap} jsfrag={jsf} frag={c.frag} modelled={c.modelled} src={src} emjs={emjs} satjs={satjs} samedefs={samedefs} nonull={noNullMember j} cmp={cmp} cmpgo={cmpgo}"
     | none, _ => return "unknown-case"
     | _, none => return "unknown-schemas"
   | _ => return "bad-request"
